@@ -60,6 +60,8 @@ inline uint64_t fnvInt(uint64_t v, uint64_t h = 1469598103934665603ull) { return
 inline std::string s(const QString &q) { return q.toUtf8().toStdString(); }
 inline std::string s(const QByteArray &q) { return q.toStdString(); }
 
+struct SkipPath { };   // enumeration: this subtree belongs to another worker
+
 // ---------------------------------------------------------------- tape
 class Tape
 {
@@ -132,6 +134,17 @@ public:
         if (n)
             r %= n;
         m_trace.push_back(r);
+        if (m_mode == Enum && m_parts > 1 && m_trace.size() == m_partDepth) {
+            uint64_t h = 1469598103934665603ull;
+            for (auto x : m_trace)
+                h = (h ^ x) * 1099511628211ull;
+            if ((h >> 17) % m_parts != m_part) {
+                if (n == 0 || n > 4096)
+                    abort();
+                m_radix.push_back(n);
+                throw SkipPath {};
+            }
+        }
         if (m_mode == Enum) {
             if (n == 0 || n > 4096) {
                 fprintf(stderr, "vh::Tape: unbounded choice in enumeration mode\n");
@@ -199,6 +212,12 @@ public:
     }
     uint64_t u64() { return (uint64_t(u(0)) << 32) | u(0); }
 
+    void setPartition(uint32_t part, uint32_t parts, uint32_t depth)
+    {
+        m_part = part;
+        m_parts = parts;
+        m_partDepth = depth;
+    }
     bool exhausted() const { return m_mode == Bytes ? m_pos >= m_n : m_pos >= m_v.size(); }
     size_t consumed() const { return m_pos; }
     const std::vector<uint32_t> &trace() const { return m_trace; }
@@ -213,6 +232,7 @@ private:
     size_t m_pos = 0;
     std::vector<uint32_t> m_trace;
     std::vector<uint32_t> m_radix;
+    uint32_t m_part = 0, m_parts = 1, m_partDepth = 2;
 };
 
 // ---------------------------------------------------------------- failures
@@ -235,6 +255,13 @@ public:
     bool replayMode = false;
     bool truncated = false;
     std::map<std::string, std::string> notes;   // free-form evidence key -> value (numbers as text)
+    std::map<std::string, std::string> params;  // --param k=v (tier-dependent bounds chosen by the driver)
+    int worker = 0, workers = 1;
+    long param(const std::string &k, long dflt) const
+    {
+        auto it = params.find(k);
+        return it == params.end() ? dflt : atol(it->second.c_str());
+    }
 
     void label(const std::string &l) { labels[l]++; }
     void count(const std::string &l, uint64_t n) { labels[l] += n; }
@@ -387,6 +414,8 @@ inline std::string replayText(const std::string &sub, const Failure &f, const st
     std::ostringstream o;
     o << "sub=" << sub << "\n";
     o << "sig=" << f.sig << "\n";
+    for (auto &[k, v] : st().ctx.params)
+        o << "param=" << k << "=" << v << "\n";
     o << "format=u32\n";
     o << "choices=";
     for (size_t i = 0; i < trace.size(); i++)
@@ -560,6 +589,9 @@ inline int runOnce(const Sub &sub, Tape &t, Ctx &ctx)
         sub.body(t, ctx);
     } catch (KnownSkip &) {
         return 2;
+    } catch (SkipPath &) {
+        ctx.evals--;
+        return 3;
     } catch (Failure &f) {
         auto &S = st();
         S.haveFailure = true;
@@ -718,6 +750,7 @@ inline int runEnum()
 {
     auto &S = st();
     Tape t = Tape::enumerator();
+    t.setPartition(uint32_t(S.ctx.worker), uint32_t(S.ctx.workers), uint32_t(S.ctx.param("partition_depth", 2)));
     long n = 0;
     bool more = true;
     S.exhaustive = false;
@@ -747,6 +780,12 @@ inline bool parseReplay(const std::string &file, std::string &sub, std::string &
             sub = line.substr(4);
         else if (line.rfind("format=", 0) == 0)
             format = line.substr(7);
+        else if (line.rfind("param=", 0) == 0) {
+            std::string kv = line.substr(6);
+            auto eq = kv.find('=');
+            if (eq != std::string::npos)
+                st().ctx.params[kv.substr(0, eq)] = kv.substr(eq + 1);
+        }
         else if (line.rfind("choices=", 0) == 0) {
             std::istringstream is(line.substr(8));
             uint64_t v;
@@ -801,6 +840,14 @@ inline int vmain(int argc, char **argv)
             S.cfg.maxSeconds = atof(next().c_str());
         else if (a == "--replay")
             replayFile = next();
+        else if (a == "--workers")
+            S.ctx.workers = atoi(next().c_str());
+        else if (a == "--param") {
+            std::string kv = next();
+            auto eq = kv.find('=');
+            if (eq != std::string::npos)
+                S.ctx.params[kv.substr(0, eq)] = kv.substr(eq + 1);
+        }
         else if (a == "--") {
             for (int j = i + 1; j < argc; j++)
                 S.cfg.fuzzArgs.push_back(argv[j]);
@@ -808,6 +855,7 @@ inline int vmain(int argc, char **argv)
         }
     }
     loadKnown(S.cfg.knownFile, S.ctx);
+    S.ctx.worker = S.cfg.worker;
 
     if (!replayFile.empty()) {
         std::string sub, format;
